@@ -11,7 +11,7 @@ struct Node { uint8_t mode, comp; };
 struct Prog { uint8_t vt; std::vector<Node> n; uint8_t yields; };
 
 inline Prog decode(hz::Reader &r) {
-    Prog p; p.vt = (uint8_t)r.mod(3);
+    Prog p; p.vt = (uint8_t)r.mod(4);
     unsigned d = 1 + r.mod(5);
     for (unsigned i = 0; i < d; i++) { Node x; x.mode = (uint8_t)r.mod(M_COUNT); x.comp = (uint8_t)r.mod(C_COUNT); p.n.push_back(x); }
     p.yields = (uint8_t)r.mod(3);
@@ -35,7 +35,7 @@ static const char *mn[] = {"detach(discarded)", "co_await detach()", "start()->f
                            "start(promise) of a future inside an object that only the coroutine's own argument keeps alive (party = callback awaiter on it)"};
 static const char *cn[] = {"returns value", "throws", "suspends on a future resolved by the launching thread", "suspends on a future resolved by another thread", "co_returns an expression whose conversion to the result type throws"};
 inline std::string describe(const Prog &p) {
-    static const char *vt[] = {"int", "void", "Counted"};
+    static const char *vt[] = {"int", "void", "Counted", "int&"};
     hz::Desc d; d << "async<" << vt[p.vt] << "> chain of depth " << (unsigned)p.n.size() << ":";
     for (size_t i = 0; i < p.n.size(); i++) d << " #" << (unsigned)i << "[" << mn[p.n[i].mode] << ", " << cn[p.n[i].comp] << "]";
     return d.s;
@@ -45,6 +45,7 @@ template<int VT> struct AT;
 template<> struct AT<0> { using T = int; static int mk(int v) { return v; } };
 template<> struct AT<1> { using T = void; };
 template<> struct AT<2> { using T = val::Counted; static val::Counted mk(int v) { return val::Counted(v); } };
+template<> struct AT<3> { using T = int &; };      // reference result: the coroutine returns a reference to an int that outlives it
 
 struct Guard {     // argument / local guard: live count must return to 0, never go negative
     int slot;
@@ -59,6 +60,7 @@ struct Ctx {
     const Prog *p = nullptr;
     cocls::thread_pool *pool = nullptr;
     int body_runs[8] = {}; int body_done[8] = {};
+    int ref_result[8] = {100, 101, 102, 103, 104, 105, 106, 107};     // referents of async<int&> results
     int root_started = 1;             // M_START_PROMISE_RACED: did start() win the claim?
     int received[8];                  // what the launching party received from node k: -100 nothing, >=0 value, 1000+id exception, -1 canceled
     std::vector<std::unique_ptr<cocls::future<void>>> gate; std::vector<cocls::promise<void>> gate_p;
@@ -66,7 +68,7 @@ struct Ctx {
 };
 
 template<int VT, class F> int observe_fut(F &f) {
-    try { if constexpr (VT == 1) { f.value(); return 0; } else if constexpr (VT == 0) return f.value(); else return f.value().val(); }
+    try { if constexpr (VT == 1) { f.value(); return 0; } else if constexpr (VT == 0 || VT == 3) return f.value(); else return f.value().val(); }
     catch (const val::TestExc &e) { return 1000 + e.id; }
     catch (const cocls::await_canceled_exception &) { return -1; }
     catch (const cocls::value_not_ready_exception &) { return -2; }
@@ -118,13 +120,18 @@ cocls::async<void> launch_from_coro(Ctx *c, int k) {
                                             bool ok = a.start(pr); HZ_CHECK(!ok, "start(already claimed promise) reported success"); thief(cocls::drop); } break;
             case M_JOIN: {          // only generated for a leaf that completes synchronously
                 auto a = node<cocls::async<T>, VT>(c, k, Guard(SLOT_ARG));
-                if constexpr (VT == 1) { a.join(); got = 0; } else if constexpr (VT == 0) got = a.join(); else { val::Counted v = a.join(); got = v.val(); }
+                if constexpr (VT == 1) { a.join(); got = 0; } else if constexpr (VT == 0 || VT == 3) got = a.join(); else { val::Counted v = a.join(); got = v.val(); }
             } break;
             case M_COAWAIT: {
                 auto a = node<cocls::async<T>, VT>(c, k, Guard(SLOT_ARG));
-                if constexpr (VT == 1) { co_await a; got = 0; } else if constexpr (VT == 0) { int v = co_await a; got = v; } else { val::Counted copy = co_await a; got = copy.val(); }
+                if constexpr (VT == 1) { co_await a; got = 0; } else if constexpr (VT == 0 || VT == 3) { int v = co_await a; got = v; } else { val::Counted copy = co_await a; got = copy.val(); }
             } break;
-            case M_FUTURE_CTOR: { auto a = node<cocls::async<T>, VT>(c, k, Guard(SLOT_ARG)); cocls::future<T> f(a); co_await f.has_value(); got = observe_fut<VT>(f); } break;
+            case M_FUTURE_CTOR: {
+                auto a = node<cocls::async<T>, VT>(c, k, Guard(SLOT_ARG));
+                // (documented: a future<T> - by value - can be constructed from a producer of T&)
+                if constexpr (VT == 3) { cocls::future<int> f(a); co_await f.has_value(); got = observe_fut<VT>(f); }
+                else { cocls::future<T> f(a); co_await f.has_value(); got = observe_fut<VT>(f); }
+            } break;
             case M_RETURN_FUTURE_FN: { cocls::future<T> f = node<cocls::future<T>, VT>(c, k, Guard(SLOT_ARG)); co_await f.has_value(); got = observe_fut<VT>(f); } break;
             case M_POOL_RUN: { cocls::future<T> f = c->pool->run(node<cocls::async<T>, VT>(c, k, Guard(SLOT_ARG))); co_await f.has_value(); got = observe_fut<VT>(f); } break;
             case M_START_PROMISE_SESSION: launch_session<VT>(c, k); got = c->received[k]; break;      // (the callback may also fire later)
@@ -152,7 +159,7 @@ R node(Ctx *c, int k, Guard arg, std::shared_ptr<void> keep) {
         // the exception leaves the construction of the RESULT inside the bound party: it is delivered like one thrown by the body
         if constexpr (VT == 2) co_return val::Poison{k}; else throw val::TestExc(k);
     }
-    if constexpr (VT == 1) co_return; else co_return AT<VT>::mk(100 + k);
+    if constexpr (VT == 1) co_return; else if constexpr (VT == 3) co_return c->ref_result[k]; else co_return AT<VT>::mk(100 + k);
 }
 
 template<int VT>
@@ -192,9 +199,13 @@ void run_t(const Prog &p) {
                 } break;
                 case M_JOIN: {
                     auto a = node<cocls::async<T>, VT>(&c, 0, Guard(SLOT_ARG));
-                    if constexpr (VT == 1) { a.join(); got = 0; } else if constexpr (VT == 0) got = a.join(); else { val::Counted v = a.join(); got = v.val(); }
+                    if constexpr (VT == 1) { a.join(); got = 0; } else if constexpr (VT == 0 || VT == 3) got = a.join(); else { val::Counted v = a.join(); got = v.val(); }
                 } break;
-                case M_FUTURE_CTOR: { auto a = node<cocls::async<T>, VT>(&c, 0, Guard(SLOT_ARG)); cocls::future<T> f(a); open_same_gates(); f.sync(); got = observe_fut<VT>(f); } break;
+                case M_FUTURE_CTOR: {
+                    auto a = node<cocls::async<T>, VT>(&c, 0, Guard(SLOT_ARG));
+                    if constexpr (VT == 3) { cocls::future<int> f(a); open_same_gates(); f.sync(); got = observe_fut<VT>(f); }
+                    else { cocls::future<T> f(a); open_same_gates(); f.sync(); got = observe_fut<VT>(f); }
+                } break;
                 case M_RETURN_FUTURE_FN: { cocls::future<T> f = node<cocls::future<T>, VT>(&c, 0, Guard(SLOT_ARG)); open_same_gates(); f.sync(); got = observe_fut<VT>(f); } break;
                 case M_POOL_RUN: { cocls::future<T> f = pool.run(node<cocls::async<T>, VT>(&c, 0, Guard(SLOT_ARG))); open_same_gates(); f.sync(); got = observe_fut<VT>(f); } break;
                 case M_START_PROMISE_SESSION: launch_session<VT>(&c, 0); open_same_gates(); got = c.received[0]; break;
@@ -240,7 +251,7 @@ void run_t(const Prog &p) {
     hz::set_class(p.n.size() - 1);
     hz::set_nontrivial(nt);
 }
-inline void run(hz::Reader &r) { Prog p = decode(r); if (p.vt == 0) run_t<0>(p); else if (p.vt == 1) run_t<1>(p); else run_t<2>(p); }
+inline void run(hz::Reader &r) { Prog p = decode(r); if (p.vt == 0) run_t<0>(p); else if (p.vt == 1) run_t<1>(p); else if (p.vt == 2) run_t<2>(p); else run_t<3>(p); }
 static const char *const class_names[] = {"depth 1", "depth 2", "depth 3", "depth 4", "depth 5"};
 static const char *const counter_names[] = {"c0"};
 } // namespace c04
